@@ -18,7 +18,8 @@ RULE = ('case = up to 6 requests with patterns sharing prefixes of length 1..4 a
         '(request script, loss script, observed transmission-time vector).')
 ASSUMPTIONS = ['virtual time: library processing takes zero time, so retransmission instants are exact',
                'two requests with identical patterns pending at once are not generated (the library keys timers by pattern)']
-REQUIRED = ['mon.sessions_ended_by_a_link_error_with_requests_pending', 'mon.connection_attempts_failed_with_requests_pending', 'mon.requests', 'mon.retransmissions_expected', 'mon.retransmissions_observed', 'mon.cancelled_by_reply',
+REQUIRED = ['mon.requests_issued_from_the_callback_of_the_previous_answer_with_the_same_expectation',
+            'mon.sessions_ended_by_a_link_error_with_requests_pending', 'mon.connection_attempts_failed_with_requests_pending', 'mon.requests', 'mon.retransmissions_expected', 'mon.retransmissions_observed', 'mon.cancelled_by_reply',
             'mon.never_answered_windows', 'mon.reliable_link_cases', 'mon.close_reopen_cases', 'mon.timers_observed',
             'mon.shared_prefix_cases', 'mon.requests_sent_while_the_link_was_being_closed',
             'mon.radio_link_mode_flag_checks', 'mon.usb_driver_close_cases']
@@ -330,6 +331,17 @@ def run(desc, ctx):
                      'reply': reply})
     if not reqs:
         return
+    # a request issued from inside the port callback that handles the answer to the previous one, with the SAME expected
+    # reply (the next read of the same address, the same parameter written again), and lost on its first transmission(s)
+    chained = []
+    if kind == 'patterns':
+        for r in list(reqs):
+            if r['delay'] is not None and r['lose_reply'] == 0 and len(r['reply']) > len(r['pattern']) and rnd.random() < 0.35:
+                u2 = r['uid'] + 40
+                chained.append({'uid': u2, 'chan': r['chan'], 'pattern': r['pattern'], 'T': r['T'], 'at': None, 'chain_of': r['uid'],
+                                'lose_tx': rnd.choice((1, 1, 2)), 'lose_reply': 0, 'delay': rnd.choice((0.0, 0.5 * r['T'])),
+                                'reply': bytes(r['pattern']) + bytes([u2]), 'parent_reply': bytes(r['reply'])})
+        reqs += chained
     shared = len({tuple(r['pattern'][:1]) for r in reqs}) < len(reqs)
     script = {r['uid']: r for r in reqs}
     dev = Responder(prof, script)
@@ -338,7 +350,7 @@ def run(desc, ctx):
     uri = 'sim://c10'
     simlink.SIMS[uri] = spec
     # the link asks the device; delayed replies are injected by the harness wrapper below
-    ob = {'sessions': [], 'problems': [], 'sent_at': {}, 'close_at': None, 'reopen_at': None, 't_end': None}
+    ob = {'sessions': [], 'problems': [], 'sent_at': {}, 'sent_seq': {}, 'close_at': None, 'reopen_at': None, 't_end': None}
 
     def fn(s):
         dev.now = lambda: s.now
@@ -363,7 +375,20 @@ def run(desc, ctx):
         ob['session1'] = cf.link.session
         ob['tx0'] = len(spec.tx)
         ob['rx0'] = len(spec.rx)
-        pend = sorted(reqs, key=lambda r: r['at'])
+        def chain_cb(pkin):
+            if not pkin.data:
+                return
+            for r2 in chained:
+                if bytes(pkin.data) == r2['parent_reply'] and pkin.channel == r2['chan'] and r2['uid'] not in ob['sent_at']:
+                    pk2 = CRTPPacket()
+                    pk2.set_header(PORT, r2['chan'])
+                    pk2.data = bytes(r2['pattern']) + bytes([r2['uid']])
+                    ob['sent_at'][r2['uid']] = s.now
+                    ob['sent_seq'][r2['uid']] = spec.seq
+                    cf.send_packet(pk2, expected_reply=tuple(r2['pattern']), timeout=r2['T'])
+        if chained:
+            cf.add_port_callback(PORT, chain_cb)
+        pend = sorted([r for r in reqs if r['at'] is not None], key=lambda r: r['at'])
         for r in pend:
             dt = t_base + r['at'] - s.now
             if dt > 0:
@@ -372,6 +397,7 @@ def run(desc, ctx):
             pk.set_header(PORT, r['chan'])
             pk.data = bytes(r['pattern']) + bytes([r['uid']])
             ob['sent_at'][r['uid']] = s.now
+            ob['sent_seq'][r['uid']] = spec.seq
             cf.send_packet(pk, expected_reply=tuple(r['pattern']), timeout=r['T'])
         if kind == 'reopen':
             # close at a quarter period around the pending timers, reopen a quarter period later
@@ -457,8 +483,13 @@ def run(desc, ctx):
     close_at = ob['close_at'] if kind == 'reopen' else None
     cancel = {}
     pending = {}          # pattern key -> uid
-    events = sorted([(ob['sent_at'][r['uid']], 0, 'send', r) for r in reqs] +
-                    [(x[0], 1, 'rx', x) for x in mine_rx], key=lambda e: (e[0], e[1], e[3]['at'] if e[2] == 'send' else 0))
+    reqs = [r for r in reqs if r['uid'] in ob['sent_at']]      # (a chained request whose parent was never answered is never issued)
+    ctx.count('mon.requests_issued_from_the_callback_of_the_previous_answer_with_the_same_expectation',
+              sum(1 for r in reqs if r.get('chain_of') is not None))
+    # order of events at one virtual instant: the link's own sequence numbers (a request issued from inside the callback
+    # that handles an answer comes after that answer)
+    events = sorted([(ob['sent_at'][r['uid']], ob['sent_seq'].get(r['uid'], 0) + 0.5, 'send', r) for r in reqs] +
+                    [(x[0], x[4], 'rx', x) for x in mine_rx], key=lambda e: (e[0], e[1]))
     for (t, _, k, x) in events:
         if close_at is not None and t > close_at + EPS:
             break
